@@ -1,6 +1,7 @@
 package main
 
 import (
+	"encoding/json"
 	"flag"
 	"fmt"
 	"go/token"
@@ -47,7 +48,7 @@ func loadGen(repo, specDir string) (*Gen, error) {
 	}
 	prog, _ := ssautil.AllPackages(pkgs, ssa.NaiveForm|ssa.GlobalDebug|ssa.InstantiateGenerics)
 	prog.Build()
-	g := &Gen{prog: prog, pkgs: map[string]*packages.Package{}, ssaPkgs: map[string]*ssa.Package{}, specs: NewSpecs(), reg: NewSortReg(), fset: fset, srcLine: map[string][]string{}, genFile: map[string]bool{}}
+	g := &Gen{repo: repo, prog: prog, pkgs: map[string]*packages.Package{}, ssaPkgs: map[string]*ssa.Package{}, specs: NewSpecs(), reg: NewSortReg(), fset: fset, srcLine: map[string][]string{}, genFile: map[string]bool{}}
 	packages.Visit(pkgs, nil, func(p *packages.Package) {
 		g.pkgs[p.PkgPath] = p
 	})
@@ -136,7 +137,11 @@ func main() {
 	verbose := flag.Bool("v", false, "verbose")
 	dumpSSA := flag.String("ssa", "", "dump SSA of unit")
 	out := flag.String("out", "/verif", "verif root (evidence, replay)")
+	replayFile := flag.String("replay", "", "replay file written by an earlier run: re-check that obligation on the current tree")
 	flag.Parse()
+	if *replayFile != "" {
+		os.Exit(replayMain(*replayFile, *repo, *specDir, *out))
+	}
 	t0 := time.Now()
 	g, err := loadGen(*repo, *specDir)
 	if err != nil {
@@ -217,6 +222,11 @@ func obOK(ob *Obligation) bool {
 func printUnit(r *UnitResult, verbose bool) {
 	if r.Trusted {
 		fmt.Printf("%-50s TRUSTED (contract assumed)\n", r.Unit)
+		for _, ob := range r.Obs {
+			if ob.Result != "unsat" || verbose {
+				fmt.Printf("    %-45s %-8s %-28s %s\n", ob.Name, ob.Result, ob.Backend, trunc(ob.Clause, 120))
+			}
+		}
 		return
 	}
 	if r.Unsupported != "" {
@@ -243,4 +253,74 @@ func printUnit(r *UnitResult, verbose bool) {
 			fmt.Printf("    note: %s\n", n)
 		}
 	}
+}
+
+// replayMain re-checks the obligation named in a replay file against the current tree: it
+// regenerates the unit's verification conditions from the working tree, solves that obligation
+// again and, if it still fails with a model, replays the counterexample on the real code.
+// Exit 1 (with a VIOLATION line) if the obligation still fails, 0 if it is discharged now.
+func replayMain(file, repo, specDir, out string) int {
+	data, err := os.ReadFile(file)
+	if err != nil {
+		fmt.Fprintln(os.Stderr, err)
+		return 2
+	}
+	var rep struct {
+		Property   string `json:"property"`
+		Obligation string `json:"obligation"`
+	}
+	if json.Unmarshal(data, &rep) != nil || rep.Obligation == "" {
+		fmt.Fprintln(os.Stderr, "not a replay file:", file)
+		return 2
+	}
+	unit := rep.Obligation
+	if i := strings.Index(unit, "/"); i >= 0 {
+		unit = unit[:i]
+	}
+	g, err := loadGen(repo, specDir)
+	if err != nil {
+		fmt.Printf("VIOLATION property=%s replay=%s no-failing-input-found\n  the tree does not load: %v\n", rep.Property, file, err)
+		return 1
+	}
+	var cts []*Contract
+	for _, k := range sortedKeys(g.specs.Contracts) {
+		if ct := g.specs.Contracts[k]; !ct.Extern && shortUnit(k) == unit {
+			cts = append(cts, ct)
+		}
+	}
+	if len(cts) == 0 {
+		fmt.Printf("VIOLATION property=%s replay=%s no-failing-input-found\n  unit %s is no longer under contract\n", rep.Property, file, unit)
+		return 1
+	}
+	work, _ := os.MkdirTemp("", "govc")
+	defer os.RemoveAll(work)
+	cfg := SolverCfg{QuickMs: 5000, FallbackMs: 10000, WorkDir: work}
+	rs := verifyUnits(g, cts, cfg)
+	for _, r := range rs {
+		if r.Unsupported != "" {
+			fmt.Printf("VIOLATION property=%s replay=%s no-failing-input-found\n  unit undecided: %s\n", rep.Property, file, r.Unsupported)
+			return 1
+		}
+		for _, ob := range r.Obs {
+			if baselineName(ob.FullName()) != baselineName(rep.Obligation) || ob.Cover {
+				continue
+			}
+			if ob.Result == "unsat" {
+				fmt.Printf("obligation %s is discharged on the current tree (%s)\n", rep.Obligation, ob.Backend)
+				return 0
+			}
+			suffix := " no-failing-input-found"
+			if ob.Model != "" {
+				rr := Replay(g, r, ob, cfg, filepath.Dir(file))
+				fmt.Printf("  replay: %s %s\n%s\n", rr.Status, rr.Reason, trunc(rr.Output, 1500))
+				if rr.Status == "confirmed" {
+					suffix = ""
+				}
+			}
+			fmt.Printf("VIOLATION property=%s replay=%s%s\n  obligation %s: %s [%s]\n", rep.Property, file, suffix, ob.FullName(), ob.Result, trunc(ob.Clause, 160))
+			return 1
+		}
+	}
+	fmt.Printf("VIOLATION property=%s replay=%s no-failing-input-found\n  obligation %s is no longer generated\n", rep.Property, file, rep.Obligation)
+	return 1
 }
